@@ -92,6 +92,7 @@ fn account(st: &mut Stats, w: &World, e: &Exec, c19_set: &mut HashSet<u64>, c09_
     st.add("ops.nested_replace", cs.nested);
     st.add("ops.compile", cs.compile_ops);
     st.add("ops.burst", cs.bursts);
+    st.add("ops.iterator_adaptors", cs.adaptors);
     st.add("faults.closure_panic", cs.closure_panics);
     st.add("ops.next", cs.nexts);
     st.add("ops.matches", cs.matches);
